@@ -73,10 +73,58 @@ def _table():
     return Table("t")
 
 
-def _operands(clsname, operands=None):
-    """the two operands of a set operation, each with its own pagination calls (operands = [ops_a, ops_b])"""
+# every class-method factory of a query class that starts a statement which can be paginated
+SELECT_ROUTES = ("from_", "select", "with_", "into", "Table", "Tables")
+UPDATE_ROUTES = ("update", "with_", "Table", "Tables")
+OPERAND_ROUTES = ("from_", "select", "with_", "Table", "Tables")
+# all classmethods of pypika.queries.Query (extract() fails closed when the source has one this list does not know)
+KNOWN_FACTORIES = {"_builder": "internal", "from_": "route", "into": "route", "with_": "route", "select": "route",
+                   "update": "route", "Table": "route", "Tables": "route",
+                   "create_table": "ddl", "create_index": "ddl", "drop_database": "ddl", "drop_table": "ddl",
+                   "drop_user": "ddl", "drop_view": "ddl", "drop_index": "ddl"}
+
+
+def _cte(c):
+    return c.from_("s").select("x")
+
+
+def _start_select(clsname, route, col):
+    """SELECT <col> FROM t started through the given class-method factory of the query class"""
     c, t = _cls(clsname), _table()
-    qa, qb = c.from_(t).select(t.a), c.from_(t).select(t.b)
+    f = getattr(t, col)
+    if route in (None, "from_"):
+        return c.from_(t).select(f)
+    if route == "select":
+        return c.select(f).from_(t)
+    if route == "with_":
+        return c.with_(_cte(c), "w").from_(t).select(f)
+    if route == "into":
+        return c.into("u").from_(t).select(f)
+    if route == "Table":
+        return c.Table("t").select(f)
+    if route == "Tables":
+        return c.Tables("t")[0].select(f)
+    raise ValueError(route)
+
+
+def _start_update(clsname, route):
+    c, t = _cls(clsname), _table()
+    if route in (None, "update"):
+        q = c.update(t)
+    elif route == "with_":
+        q = c.with_(_cte(c), "w").update(t)
+    elif route == "Table":
+        q = c.Table("t").update()
+    elif route == "Tables":
+        q = c.Tables("t")[0].update()
+    else:
+        raise ValueError(route)
+    return q.set(t.b, 1).where(t.a >= 0)
+
+
+def _operands(clsname, operands=None, route=None):
+    """the two operands of a set operation, each with its own pagination calls (operands = [ops_a, ops_b])"""
+    qa, qb = _start_select(clsname, route, "a"), _start_select(clsname, route, "b")
     if operands:
         for op in operands[0]:
             qa = _apply(qa, op, "select")
@@ -85,15 +133,14 @@ def _operands(clsname, operands=None):
     return qa, qb
 
 
-def _base(clsname, kind, setop="union", operands=None):
-    c, t = _cls(clsname), _table()
+def _base(clsname, kind, setop="union", operands=None, route=None):
     if kind == "select":
-        return c.from_(t).select(t.a)
+        return _start_select(clsname, route, "a")
     if kind == "setop":
-        qa, qb = _operands(clsname, operands)
+        qa, qb = _operands(clsname, operands, route)
         return getattr(qa, setop)(qb)
     if kind == "update":
-        return c.update(t).set(t.b, 1).where(t.a >= 0)
+        return _start_update(clsname, route)
     raise ValueError(kind)
 
 
@@ -140,7 +187,7 @@ def _apply(q, op, kind):
 
 
 def _build(case, keep):
-    q = _base(case["cls"], case["kind"], case.get("setop", "union"), case.get("operands"))
+    q = _base(case["cls"], case["kind"], case.get("setop", "union"), case.get("operands"), case.get("route"))
     for op in case["ops"]:
         if keep(op[0]):
             q = _apply(q, op, case["kind"])
@@ -451,6 +498,35 @@ def extract():
                 raise RuntimeError("%s: paginated set operation does not extend the plain one" % py)
             so_rows.append(P(cq, S(full[len(t0):])))
     out.append("Definition x_setop_operands : list (cls * string) :=\n [" + ";\n  ".join(so_rows) + "].")
+    # ---- every class-method factory of Query that starts a statement yields a builder of the CLASS'S dialect and
+    #      paginates like it (Round 6): classmethods enumerated from the source, fail closed on an unknown one
+    src = open(os.path.join(REPO, "pypika", "queries.py")).read()
+    qcls = [n for n in ast.parse(src).body if isinstance(n, ast.ClassDef) and n.name == "Query"]
+    if len(qcls) != 1:
+        raise RuntimeError("class Query not found in queries.py")
+    facts = [m.name for m in qcls[0].body if isinstance(m, ast.FunctionDef)
+             and any((isinstance(d, ast.Name) and d.id == "classmethod") for d in m.decorator_list)]
+    unknown = [f for f in facts if f not in KNOWN_FACTORIES]
+    missing = [f for f in KNOWN_FACTORIES if f not in facts]
+    if unknown or missing:
+        raise RuntimeError("class-method factories of Query changed: unknown %r, missing %r "
+                           "(extend SELECT_ROUTES/UPDATE_ROUTES in harness/props/C12.py)" % (unknown, missing))
+    route_names = sorted(f for f, kd in KNOWN_FACTORIES.items() if kd == "route")
+    if sorted(set(SELECT_ROUTES) | set(UPDATE_ROUTES)) != route_names:
+        raise RuntimeError("route lists do not cover the statement-starting factories %r" % route_names)
+    route_rows = []
+    for cq, py in CLASSES:
+        want = type(_cls(py)._builder()).__name__
+        for kq, kind in KINDS:
+            for route in _routes(kind):
+                q0 = _base(py, kind, "union", None, route)
+                bq = q0.base_query if kind == "setop" else q0
+                t0 = str(q0)
+                full = str(q0.limit(7).offset(5))
+                if not full.startswith(t0):
+                    raise RuntimeError("%s.%s: paginated text does not extend the plain one" % (py, route))
+                route_rows.append(P(cq, kq, S(route), B(type(bq).__name__ == want), S(full[len(t0):])))
+    out.append("Definition x_routes : list (cls * kind * string * bool * string) :=\n [" + ";\n  ".join(route_rows) + "].")
     return {"gen/C12Table.v": "\n".join(out) + "\n"}
 
 
@@ -546,11 +622,49 @@ def _random_case(rng, malformed=False):
             ops.insert(rng.randrange(len(ops) + 1), e)
     _sprinkle_other(rng, ops, kind, 0.45)
     c = {"cls": clsname, "kind": kind, "ops": ops}
+    _pick_route(rng, c, 0.5)
     if kind == "setop":
         c["setop"] = rng.choice(SETOPS)
         if rng.random() < 0.5:
             c["operands"] = _operand_ops(rng, clsname)
     return c
+
+
+def _routes(kind):
+    return {"select": SELECT_ROUTES, "update": UPDATE_ROUTES, "setop": OPERAND_ROUTES}[kind]
+
+
+def _pick_route(rng, case, p):
+    if rng.random() < p:
+        case["route"] = rng.choice(_routes(case["kind"]))
+
+
+def _route_product(rng, full):
+    """every query class x statement kind x EVERY class-method factory that can start the statement x a few windows"""
+    out = []
+    for _, py in CLASSES:
+        for kind in ("select", "setop", "update"):
+            for route in _routes(kind):
+                states = [[["limit", 7], ["offset", 5]], [["limit", 0]], [["offset", 3], ["limit", 4]]]
+                if kind != "setop":
+                    states.append([["slice", 2, 9]])
+                    if py == "MSSQLQuery" and kind == "select":
+                        states.append([["top", 0, False, False]])
+                    if py == "ClickHouseQuery" and kind == "select":
+                        states.append([["limit_offset_by", 3, 2, ["a"]], ["limit", 7]])
+                    if py in FETCH:
+                        states.append([["fetch_next", 4]])
+                if not full:
+                    states = [states[0], rng.choice(states[1:])]
+                for st in states:
+                    ops = [list(o) for o in st]
+                    if kind != "update" and rng.random() < 0.5:
+                        ops.insert(rng.randrange(len(ops) + 1), ["orderby"])
+                    c = {"cls": py, "kind": kind, "route": route, "ops": ops}
+                    if kind == "setop":
+                        c["setop"] = rng.choice(SETOPS)
+                    out.append(c)
+    return out
 
 
 def _sprinkle_other(rng, ops, kind, p):
@@ -600,6 +714,7 @@ def _grid(rng, full):
                                     ops.insert(rng.randrange(len(ops) + 1), ["for_update"])
                             _sprinkle_other(rng, ops, kind, 0.3)
                             c = {"cls": py, "kind": kind, "ops": ops}
+                            _pick_route(rng, c, 0.5)
                             if kind == "setop":
                                 c["setop"] = rng.choice(SETOPS)
                                 if rng.random() < 0.4:
@@ -642,7 +757,7 @@ def _survival_product(rng, full):
 
 
 def gen_cases(rng, tier):
-    out = _grid(rng, tier != "quick") + _survival_product(rng, tier != "quick")
+    out = _grid(rng, tier != "quick") + _survival_product(rng, tier != "quick") + _route_product(rng, tier != "quick")
     n_rand, n_bad = (420, 60) if tier == "quick" else (9000, 1200)
     out += [_random_case(rng) for _ in range(n_rand)]
     out += [_random_case(rng, malformed=True) for _ in range(n_bad)]
@@ -718,15 +833,18 @@ def run_impl(case):
                                "the latter do not extend the former" % (text0, ob, fu)}
     out = {"ob": ob[len(text0):], "fu": fu[len(text0):], "unpaged": unpaged, "plain": text0}
     if kind == "select":
+        # what precedes the statement's own SELECT (WITH w AS (...) / INSERT INTO "u") is opaque and taken off
+        pre = text0[:text0.rindex("SELECT ")] if "SELECT " in text0 else ""
+        out["pre"] = pre
         prefix = "SELECT DISTINCT " if any(o[0] == "distinct" for o in case["ops"]) else "SELECT "
-        if not text0.startswith(prefix):
+        if not text0[len(pre):].startswith(prefix):
             return {"harness_exc": "statement does not start with %r" % prefix}
-        out["rest"] = text0[len(prefix):]
+        out["rest"] = text0[len(pre) + len(prefix):]
     else:
         out["rest"] = text0
     if kind == "setop" and case.get("operands"):
         try:
-            out["operand_texts"] = [str(q) for q in _operands(case["cls"], case["operands"])]
+            out["operand_texts"] = [str(q) for q in _operands(case["cls"], case["operands"], case.get("route"))]
         except Exception as e:  # noqa
             return {"harness_exc": "cannot render the operands: %s: %s" % (type(e).__name__, e)}
     try:
@@ -791,6 +909,9 @@ def to_coq(case, outcome):
         return None
     calls = [c for c in (_call_coq(op) for op in case["ops"]) if c is not None]
     expect = outcome["text"] if "text" in outcome else "!" + outcome["exc"]
+    pre = outcome.get("pre", "")
+    if pre and expect.startswith(pre):
+        expect = expect[len(pre):]      # (if the text does not start with it, it stays and the comparison fails)
     distinct = any(o[0] == "distinct" for o in case["ops"])
     return P(COQ_CLS[case["cls"]], COQ_KIND[case["kind"]], B(distinct), L(calls),
              P(S(outcome["rest"]), S(outcome["ob"]), S(outcome["fu"])), S(expect))
@@ -895,12 +1016,18 @@ def oracle(case, outcome):
 
     def viol(what, msg):
         return [{"signature": ["C12", cls, kind, _vclass(n), _vclass(m), what],
-                 "what": "%s %s, calls %s: %s" % (cls, kind, json.dumps(case["ops"]), msg)}]
+                 "what": "%s %s%s, calls %s: %s" % (cls, kind, " started with %s.%s" % (cls, case["route"]) if case.get("route") else "",
+                                                    json.dumps(case["ops"]), msg)}]
     if "shape_error" in outcome:
         return viol("position", outcome["shape_error"])
     if "exc" in outcome:
         return viol("exception", "building/rendering raised %s" % outcome["exc"])
     text, unpaged, fu = outcome["text"], outcome["unpaged"], outcome["fu"]
+    pre = outcome.get("pre", "")
+    if pre:
+        if not (text.startswith(pre) and unpaged.startswith(pre)):
+            return viol("position", "statement %r does not start with %r like its un-paginated form" % (text, pre))
+        text, unpaged = text[len(pre):], unpaged[len(pre):]
     # --- TOP (MSSQL SELECT): read it from the head, then take it out
     if kind == "select":
         mo = RE_TOP.match(text)
@@ -949,7 +1076,8 @@ def oracle(case, outcome):
             if got_rows != want:
                 return viol("sqlite-rows", "%r returns %d rows starting %r; rows[%d:%s] of the ordered result has %d starting %r"
                             % (text, len(got_rows), got_rows[:2], a, "" if n is None else a + n, len(want), want[:2]))
-        if kind == "update" and n is not None and not has_fu and not any(o[0] == "where" for o in case["ops"]):
+        if kind == "update" and n is not None and not has_fu and not any(o[0] == "where" for o in case["ops"]) \
+                and case.get("route") != "with_":
             try:
                 total = con.execute('select count(*) from "t"').fetchone()[0]
                 cur = con.execute(text)
@@ -969,7 +1097,7 @@ def nontrivial_key(case):
         return None
     if not any(o[0] in PAGE_OPS for o in case["ops"]):
         return None
-    return json.dumps([case["cls"], case["kind"], case["ops"]], sort_keys=True)
+    return json.dumps([case["cls"], case["kind"], case.get("route"), case["ops"]], sort_keys=True)
 
 
 def histogram(cases):
@@ -980,6 +1108,7 @@ def histogram(cases):
     for c in cases:
         bump("cls=" + c["cls"])
         bump("kind=" + c["kind"])
+        bump("route=%s" % c.get("route", "default"))
         bump("calls=%d" % sum(1 for o in c["ops"] if o[0] in PAGE_OPS))
         for o in c["ops"]:
             bump("op=" + o[0])
@@ -1003,7 +1132,7 @@ def targeted_search(rng, broken, mism_cases):
                 d = dict(c)
                 d["ops"] = [ops[i], ops[j]]
                 out.append(d)
-    out += _grid(rng, True) + _survival_product(rng, True)
+    out += _grid(rng, True) + _survival_product(rng, True) + _route_product(rng, True)
     for _, py in CLASSES:                      # call sequences with repeated calls / slices
         for kind in ("select", "setop", "update"):
             for ops in ([["limit", 7], ["offset", 5], ["limit", 3]], [["offset", 5], ["limit", 7], ["offset", 2]],
